@@ -184,3 +184,173 @@ Example C06_example_call :
          0; 0;0;5;220; 0;0;0;0;0;0;0;1; 0;0;0;0;0;0;0;2; 0;0;0;0;0;0;0;3; 1; 3;115;118;99; 1; 2;97;115; 3;114;97;119;
          1; 203;244;57;38; 0;3;49;50;51; 0;3;52;53;54; 0;3;55;56;57]].
 Proof. cbv zeta. split; [unfold fits_one; vm_compute; split; [discriminate|reflexivity]|vm_compute; reflexivity]. Qed.
+
+(* ======================================================================================
+   The typed-buffer model is the code: REGENERATED definitions agree with the hand model.
+
+   Gen/GenTypedBuf.v is produced on every run by go2v (method translator) from
+   typed/buffer.go: one Gallina function per Go method over the Go state itself
+   (ReadBuffer = remaining []byte + err; WriteBuffer = backing array + `remaining` as
+   offset/length into it + err), None = the Go code panics (Base/GoSem.v gives the meaning of
+   every Go construct used).  Vocabulary (Proofs/GenTypedBufP.v):
+     absR g = the model read buffer (bytes of g.remaining, g.err != nil);
+     absW g = the model write buffer (bytes written so far, room left, error code);
+     wfW g  = g.remaining is a suffix of g.buffer and g.err is nil / ErrBufferFull /
+              errStringTooLong (what NewWriteBuffer/Wrap/Reset establish and every method keeps);
+     viewR f o = o seen through absR (f on the result);
+     stepW o g m = the generated call o does not panic, keeps wfW, and its state seen
+              through absW is the model function m applied to absW g.
+   Hypotheses are Go typing facts only: a byte argument is 0..255, a []byte holds bytes,
+   len(buffer) < 2^63, an int length argument is non-negative where the model takes a nat
+   (the negative case is stated separately: error, never a panic or a read).
+   ====================================================================================== *)
+From Verif Require Import Base.GoSem Gen.GenTypedBuf Proofs.GenTypedBufP.
+
+Theorem C06_typedbuf_generated :
+  (* ---- ReadBuffer (typed/buffer.go) ---- *)
+  (forall g n, 0 <= n -> viewR bs_list (ReadBuffer_ReadBytes g n) = Some (r_bytes (Z.to_nat n) (absR g))) /\
+  (forall g n, n < 0 -> ReadBuffer_err g = 0 ->
+     viewR bs_list (ReadBuffer_ReadBytes g n) = Some ([], mkR (rrem (absR g)) true)) /\
+  (forall g n, ReadBuffer_ReadBytes g n <> None) /\
+  (forall g n, 0 <= n -> option_map absR (ReadBuffer_SkipBytes g n) = Some (snd (r_bytes (Z.to_nat n) (absR g)))) /\
+  (forall g n, 0 <= n -> viewR (fun s => s) (ReadBuffer_ReadString g n) = Some (r_string n (absR g))) /\
+  (forall g, viewR (fun v => v) (ReadBuffer_ReadSingleByte g) = Some (r_u8 (absR g))) /\
+  (forall g, viewR (fun v => v) (ReadBuffer_ReadUint16 g) = Some (r_u16 (absR g))) /\
+  (forall g, viewR (fun v => v) (ReadBuffer_ReadUint32 g) = Some (r_u32 (absR g))) /\
+  (forall g, viewR (fun v => v) (ReadBuffer_ReadUint64 g) = Some (r_u64 (absR g))) /\
+  (forall g, bytes_ok (bs_list (ReadBuffer_remaining g)) = true ->
+     viewR (fun s => s) (ReadBuffer_ReadLen8String g) = Some (r_len8 (absR g))) /\
+  (forall g, bytes_ok (bs_list (ReadBuffer_remaining g)) = true ->
+     viewR (fun s => s) (ReadBuffer_ReadLen16String g) = Some (r_len16 (absR g))) /\
+  (forall g, ReadBuffer_BytesRemaining g = Some (zlen (rrem (absR g)))) /\
+  (forall g, option_map (fun e => negb (e =? 0)) (ReadBuffer_Err g) = Some (rerr (absR g))) /\
+  (* ---- WriteBuffer ---- *)
+  (forall g v, wfW g -> 0 <= v < 256 -> stepW (WriteBuffer_WriteSingleByte g v) g (w_u8 v)) /\
+  (forall g b, wfW g -> stepW (WriteBuffer_WriteBytes g b) g (w_bytes (bs_list b))) /\
+  (forall g s, wfW g -> stepW (WriteBuffer_WriteString g s) g (w_bytes s)) /\
+  (forall g v, wfW g -> stepW (WriteBuffer_WriteUint16 g v) g (w_u16 v)) /\
+  (forall g v, wfW g -> stepW (WriteBuffer_WriteUint32 g v) g (w_u32 v)) /\
+  (forall g v, wfW g -> stepW (WriteBuffer_WriteUint64 g v) g (w_u64 v)) /\
+  (forall g s, wfW g -> stepW (WriteBuffer_WriteLen8String g s) g (w_len8 s)) /\
+  (forall g s, wfW g -> stepW (WriteBuffer_WriteLen16String g s) g (w_len16 s)) /\
+  (forall g e, wfW g -> e = e_typed_ErrBufferFull \/ e = e_typed_errStringTooLong ->
+     stepW (WriteBuffer_setErr g e) g (w_seterr (abs_werr e))) /\
+  (forall g n, wfW g -> 0 <= n ->
+     exists g', WriteBuffer_DeferBytes g n = Some (deferred_ref g n, g') /\ wfW g' /\
+                absW g' = w_bytes (repeat 0 (Z.to_nat n)) (absW g)) /\
+  (forall g, WriteBuffer_DeferUint16 g = WriteBuffer_DeferBytes g 2 /\ WriteBuffer_DeferUint32 g = WriteBuffer_DeferBytes g 4 /\
+             WriteBuffer_DeferUint64 g = WriteBuffer_DeferBytes g 8) /\
+  (forall g, wfW g -> WriteBuffer_err g = 0 ->
+     exists r g', WriteBuffer_DeferByte g = Some (r, g') /\ wfW g' /\ absW g' = w_bytes [0] (absW g) /\
+                  r = (if rs_len (WriteBuffer_remaining g) =? 0 then None else WriteBuffer_remaining g)) /\
+  (forall g, WriteBuffer_BytesRemaining g = Some (wroom (absW g))) /\
+  (forall g, wfW g -> bs_len (WriteBuffer_buffer g) < 2 ^ 63 -> WriteBuffer_BytesWritten g = Some (zlen (wout (absW g)))) /\
+  (forall g, option_map abs_werr (WriteBuffer_Err g) = Some (werr (absW g))) /\
+  (forall g, exists g', WriteBuffer_Reset g = Some g' /\ wfW g' /\ absW g' = wb (bs_len (WriteBuffer_buffer g))) /\
+  (forall b, exists g', WriteBuffer_Wrap (mk_WriteBuffer None None 0) b = Some g' /\ wfW g' /\ absW g' = wb (bs_len b)) /\
+  (* ---- deferred references: Update = patching the bytes written ---- *)
+  (forall l pos n, 0 <= pos -> pos + 2 <= zlen l ->
+     Uint16Ref_Update (Some l) (Some (mkSref pos 2)) n
+       = Some (Some (firstn (Z.to_nat pos) l ++ be 2 n ++ skipn (Z.to_nat pos + 2) l))) /\
+  (forall l pos len b, 0 < len ->
+     ByteRef_Update (Some l) (Some (mkSref pos len)) b
+       = Some (Some (firstn (Z.to_nat pos) l ++ [b] ++ skipn (Z.to_nat pos + 1) l))) /\
+  (forall l pos len b, zlen (bs_list b) = len ->
+     BytesRef_Update (Some l) (Some (mkSref pos len)) b
+       = Some (Some (firstn (Z.to_nat pos) l ++ bs_list b ++ skipn (Z.to_nat pos + length (bs_list b)) l))) /\
+  (forall m v, ByteRef_Update m None v = Some m /\ Uint16Ref_Update m None v = Some m).
+Proof. exact typedbuf_generated. Qed.
+
+(* DeferByte is the one write that does not look at the sticky error (stated above under
+   err = nil): on an errored buffer with room it still advances.  Witness: *)
+Theorem C06_deferbyte_not_sticky :
+  let g := mk_WriteBuffer (Some [7]) (Some (mkSref 0 1)) e_typed_errStringTooLong in
+  wfW g /\ option_map (fun p => absW (snd p)) (WriteBuffer_DeferByte g) = Some (mkW [0] 0 2) /\
+  w_bytes [0] (absW g) = mkW [] 1 2.
+Proof. exact DeferByte_ignores_error. Qed.
+(* DeferBytes(n) with a negative n panics (slice bounds out of range) *)
+Theorem C06_deferbytes_negative_panics : forall g n, n < 0 -> WriteBuffer_err g = 0 ->
+  0 <= rs_len (WriteBuffer_remaining g) -> WriteBuffer_DeferBytes g n = None.
+Proof. exact DeferBytes_negative_panics. Qed.
+
+Print Assumptions C06_typedbuf_generated.
+
+(* non-vacuity: the generated code run on a concrete buffer, next to the model *)
+Example C06_example_generated :
+  let g := mk_WriteBuffer (Some [9; 9; 9; 9; 9; 9]) (Some (mkSref 0 6)) 0 in
+  wfW g /\
+  option_map absW (match WriteBuffer_WriteUint16 g 258 with Some w => WriteBuffer_WriteLen8String w [104; 105] | None => None end)
+    = Some ((w_u16 258 >> w_len8 [104; 105]) (wb 6)) /\
+  (w_u16 258 >> w_len8 [104; 105]) (wb 6) = mkW [1; 2; 2; 104; 105] 1 0 /\
+  viewR (fun s => s) (ReadBuffer_ReadLen8String (mk_ReadBuffer (Some [2; 104; 105; 7]) 0)) = Some ([104; 105], rb [7]).
+Proof.
+  cbv zeta. split; [split; [cbn; repeat split; vm_compute; congruence|left; reflexivity]|].
+  split; [reflexivity|]. split; reflexivity.
+Qed.
+
+(* ======================================================================================
+   The message codecs are the code: Gen/GenMessages.v is regenerated on every run from
+   messages.go (callReq, callRes, errorMessage, cancelMessage, initMessage, transportHeaders,
+   noBodyMsg, callResContinue read/write), tracing.go (Span read/write) and frame.go
+   (FrameHeader read/write), LOOPS INCLUDED (`for i := 0; i < n; i++` => go_for, `for k, v :=
+   range m` => go_range over the map's entries in iteration order, a universally quantified
+   list; m[k] = v => the entry appended to the insertion log), calling the generated buffer
+   primitives of Gen/GenTypedBuf.v.  Vocabulary (Proofs/GenMessagesP.v):
+     absSpan / absCallReq / ... = the model record of a Go message struct (the id field dropped);
+     bokR g = the unread bytes of g are bytes (Go typing), kept by every read;
+     stepWE o g m = the generated write method o: no panic, wfW kept, new buffer seen through
+        absW = m applied to the old view, returned error = the buffer's error;
+     stepRE abs o g m = the generated read method o: no panic, (abs message, view of the new
+        buffer) = m applied to the old view, bokR kept, returned error = the buffer's error.
+   Hypotheses are Go typing facts (a byte field is 0..255) and, for FrameHeader.write, that
+   fh.reserved is the zero array (nothing in the library assigns it; read drops the 8 bytes).
+   Still hand-written (tied by correspondence only): Frame.write / Frame.read / ReadBody /
+   ReadIn / WriteOut (interface-typed message, io.Reader / io.Writer).
+   ====================================================================================== *)
+From Verif Require Import Gen.GenMessages Proofs.GenMessagesP.
+
+Theorem C06_messages_generated :
+  (* ---- write methods (messages.go, tracing.go, frame.go) ---- *)
+  (forall s g, wfW g -> 0 <= Span_flags s < 256 -> stepWE (Span_write s g) g (w_span (absSpan s))) /\
+  (forall h g, wfW g -> stepW (transportHeaders_write h g) g (w_headers h)) /\
+  (forall m g, wfW g -> 0 <= Span_flags (callReq_Tracing m) < 256 ->
+     stepWE (callReq_write m g) g (w_callreq (absCallReq m))) /\
+  (forall m g, wfW g -> 0 <= Span_flags (callRes_Tracing m) < 256 ->
+     stepWE (callRes_write m g) g (w_callres (absCallRes m))) /\
+  (forall m g, wfW g -> 0 <= Span_flags (errorMessage_tracing m) < 256 ->
+     stepWE (errorMessage_write m g) g (w_error (absError m))) /\
+  (forall m g, wfW g -> 0 <= Span_flags (cancelMessage_tracing m) < 256 ->
+     stepWE (cancelMessage_write m g) g (w_cancel (absCancel m))) /\
+  (forall m g, wfW g -> stepWE (initMessage_write m g) g (Messages.w_init (absInit m))) /\
+  (forall h g, wfW g -> 0 <= FrameHeader_reserved1 h < 256 -> FrameHeader_reserved h = repeat 0 8 ->
+     stepWE (FrameHeader_write h g) g (w_fheader (absFH h))) /\
+  (* ---- read methods ---- *)
+  (forall s g, bokR g -> stepRE absSpan (Span_read s g) g r_span) /\
+  (forall ch g, bokR g ->
+     exists h g', transportHeaders_read ch g = Some (ch ++ h, g') /\ (h, absR g') = r_headers (absR g) /\ bokR g') /\
+  (forall m g, bokR g -> stepRE absCallReq (callReq_read m g) g r_callreq) /\
+  (forall m g, bokR g -> stepRE absCallRes (callRes_read m g) g r_callres) /\
+  (forall m g, bokR g -> stepRE absError (errorMessage_read m g) g r_error) /\
+  (forall m g, bokR g -> stepRE absCancel (cancelMessage_read m g) g r_cancel) /\
+  (forall m g, bokR g -> stepRE absInit (initMessage_read m g) g Messages.r_init) /\
+  (forall h g, bokR g -> stepRE absFH (FrameHeader_read h g) g r_fheader) /\
+  (forall h g e h' g', FrameHeader_read h g = Some (e, h', g') -> FrameHeader_reserved h' = FrameHeader_reserved h) /\
+  (* ---- messages without a body: ping req/res, call req continue (noBodyMsg), call res continue ---- *)
+  (forall x r, noBodyMsg_read x r = Some 0) /\ (forall x w, noBodyMsg_write x w = Some 0) /\
+  (forall c r, callResContinue_read c r = Some 0) /\ (forall c w, callResContinue_write c w = Some 0).
+Proof. exact messages_generated. Qed.
+
+Print Assumptions C06_messages_generated.
+
+(* non-vacuity: the generated callReq.write on a concrete message, next to the model, and the
+   generated callReq.read of the bytes written *)
+Example C06_example_messages_generated :
+  let m := mk_callReq 7 (1500 * 1000000) (mk_Span 3 2 1 1) [([97; 115], [114; 97; 119])] [115; 118; 99] in
+  let g := mk_WriteBuffer (Some (repeat 0 64)) (Some (mkSref 0 64)) 0 in
+  let bytes := [0;0;5;220; 0;0;0;0;0;0;0;1; 0;0;0;0;0;0;0;2; 0;0;0;0;0;0;0;3; 1; 3;115;118;99; 1; 2;97;115; 3;114;97;119] in
+  option_map (fun p => (fst p, wout (absW (snd p)))) (callReq_write m g) = Some (0, bytes) /\
+  wout (w_callreq (absCallReq m) (wb 64)) = bytes /\
+  option_map (fun p => (fst (fst p), absCallReq (snd (fst p)), absR (snd p)))
+             (callReq_read (mk_callReq 7 0 (mk_Span 0 0 0 0) [] []) (mk_ReadBuffer (Some (bytes ++ [9])) 0))
+    = Some (0, absCallReq m, rb [9]).
+Proof. cbv zeta. split; [vm_compute; reflexivity|]. split; vm_compute; reflexivity. Qed.
